@@ -12,43 +12,45 @@ import "fmt"
 // returns every way in which items / order / elems disagree or the size exceeds
 // maxSize (empty = well formed: the `wf` + capacity invariant of the model).
 func vfLruCacheProblems(c *Cache) []string {
-	c.mutex.Lock()
-	defer c.mutex.Unlock()
+	p := vfPartsOf(c)
+	p.mutex.Lock()
+	defer p.mutex.Unlock()
+	items, elems, order, maxSize := *p.items, *p.elems, *p.order, *p.maxSize
 	var bad []string
-	if len(c.items) > c.maxSize {
-		bad = append(bad, fmt.Sprintf("size %d exceeds maxSize %d", len(c.items), c.maxSize))
+	if len(items) > maxSize {
+		bad = append(bad, fmt.Sprintf("size %d exceeds maxSize %d", len(items), maxSize))
 	}
-	if len(c.items) != len(c.elems) {
-		bad = append(bad, fmt.Sprintf("len(items)=%d len(elems)=%d", len(c.items), len(c.elems)))
+	if len(items) != len(elems) {
+		bad = append(bad, fmt.Sprintf("len(items)=%d len(elems)=%d", len(items), len(elems)))
 	}
-	if c.order.Len() != len(c.elems) {
-		bad = append(bad, fmt.Sprintf("order.Len()=%d len(elems)=%d", c.order.Len(), len(c.elems)))
+	if order.Len() != len(elems) {
+		bad = append(bad, fmt.Sprintf("order.Len()=%d len(elems)=%d", order.Len(), len(elems)))
 	}
 	seen := map[string]bool{}
 	n := 0
-	for e := c.order.Front(); e != nil; e = e.Next() {
+	for e := order.Front(); e != nil; e = e.Next() {
 		n++
-		if n > len(c.items)+len(c.elems)+8 {
+		if n > len(items)+len(elems)+8 {
 			bad = append(bad, "order list longer than the maps (cycle or leak)")
 			break
 		}
-		le, ok := e.Value.(lruEntry)
+		key, ok := vfEntryKey(e.Value)
 		if !ok {
-			bad = append(bad, "order element is not an lruEntry")
+			bad = append(bad, "order element carries no key")
 			continue
 		}
-		if seen[le.key] {
-			bad = append(bad, "key twice in order: "+le.key)
+		if seen[key] {
+			bad = append(bad, "key twice in order: "+key)
 		}
-		seen[le.key] = true
-		if _, ok := c.items[le.key]; !ok {
-			bad = append(bad, "key in order but not in items: "+le.key)
+		seen[key] = true
+		if _, ok := items[key]; !ok {
+			bad = append(bad, "key in order but not in items: "+key)
 		}
-		if el, ok := c.elems[le.key]; !ok || el != e {
-			bad = append(bad, "elems does not point at the order element of "+le.key)
+		if el, ok := elems[key]; !ok || el != e {
+			bad = append(bad, "elems does not point at the order element of "+key)
 		}
 	}
-	for k := range c.items {
+	for k := range items {
 		if !seen[k] {
 			bad = append(bad, "key in items but not in order: "+k)
 		}
@@ -58,7 +60,8 @@ func vfLruCacheProblems(c *Cache) []string {
 
 // vfLruCacheSize is len(c.items) under the mutex.
 func vfLruCacheSize(c *Cache) int {
-	c.mutex.Lock()
-	defer c.mutex.Unlock()
-	return len(c.items)
+	p := vfPartsOf(c)
+	p.mutex.Lock()
+	defer p.mutex.Unlock()
+	return len(*p.items)
 }
